@@ -42,6 +42,8 @@ def plan(tier, seed):
             cases.append({"kind": "validation", "currency": cur, "mbv": mbv, "dense": tier == "thorough"})
     cases.append({"kind": "validation_ladders"})
     cases.append({"kind": "betdaq"})
+    cases.append({"kind": "ticks_ladders"})
+    cases.append({"kind": "currency_switch"})
     return cases
 
 
@@ -142,7 +144,42 @@ def run(case):
                     out.v("ticks-away-wrong", {"clamp": "low" if i + n < 0 else "high" if i + n > 349 else "none"}, price=p, n=n, result=r, expected=exp)
         out.d("ticks:%d" % case["lo"])
         out.c("distinct_inputs", (case["hi"] - case["lo"]) * 801)
-    elif kind in ("validation", "validation_ladders", "betdaq"):
+    elif kind == "ticks_ladders":
+        # ladders handed to price_ticks_away as its third argument, built for the call and dropped again (as a strategy quoting several
+        # line markets does): line ranges, finest / Betdaq float ladders, copies of the classic one - one after the other
+        n = 0
+        specs = [("line", 0.5, 100.5, 1.0), ("line", 0.0, 60.0, 1.0), ("line", 0.5, 20.5, 0.5), ("line", -10.5, 10.5, 0.5), ("line", 0.5, 100.5, 0.5), ("finest",), ("betdaq",), ("classic",), ("line", 100.0, 400.0, 1.0)]
+        for rnd in range(3):
+            for spec in specs if rnd != 1 else specs[::-1]:
+                if spec[0] == "line":
+                    ref = L.line_prices(*spec[1:])
+                    lad = _U.make_line_prices(*spec[1:])
+                elif spec[0] == "finest":
+                    ref = [c / 100 for c in range(101, 100001)][:: 37 if rnd else 1][:3000]
+                    lad = list(ref)
+                elif spec[0] == "betdaq":
+                    ref = list(L.BETDAQ)
+                    lad = [float(x) for x in ref]
+                else:
+                    ref = list(L.CLASSIC)
+                    lad = [float(x) for x in ref]
+                if [float(x) for x in lad] != [float(x) for x in ref]:
+                    out.v("ladder-differs-from-exchange-table", {"ladder": spec[0]}, spec=spec, got=len(lad), expected=len(ref))
+                    continue
+                idxs = range(0, len(ref), max(1, len(ref) // 60))
+                for i in idxs:
+                    for k in (-7, -2, -1, 0, 1, 2, 5, 23):
+                        if not 0 <= i + k < len(ref):
+                            continue  # clamping is defined for the default ladder only
+                        r = U.price_ticks_away(lad[i], k, lad)
+                        out.rule("ticks-away")
+                        n += 1
+                        if r == r and abs(float(r) - float(ref[i + k])) > 1e-9:
+                            out.v("ticks-away-wrong", {"clamp": "none", "ladder": spec[0]}, price=lad[i], n=k, result=r, expected=ref[i + k], spec=spec)
+                del lad
+        out.d("ticks:ladders")
+        out.c("distinct_inputs", n)
+    elif kind in ("validation", "validation_ladders", "betdaq", "currency_switch"):
         _validation(case, out)
     return out.result(sample={"case": case} if kind != "nearest" or case["lo"] == 0 else None)
 
@@ -232,6 +269,53 @@ def _validation(case, out):
                     if refused == ok:
                         out.v("sp-validation-differs", {"expected_valid": ok, "otype": ot, "side": side}, currency=cur, liability=liab, price=p, refused=refused)
         out.d("validation:%s:%s" % (cur, case["mbv"]))
+    elif case["kind"] == "currency_switch":
+        # live Betfair client: the account details may be missing when the first order is validated (the call failed at start-up)
+        # and arrive or change later (account polling): the minimums in force are those of the currency known at validation time
+        from flumine import clients as _clients
+        from flumine.controls.tradingcontrols import OrderValidation
+
+        class _Api:
+            username = "cur"
+
+        for first in (None, "GBP", "AUD", "SEK"):
+            bc = _clients.BetfairClient(_Api(), order_stream=False)
+            bc.min_bet_validation = True
+            ctrl = OrderValidation(fw)
+            seq = [first] + [c for c in ("AUD", "GBP", "HKD", "EUR", "SEK", "USD") if c != first]
+            for cur in seq:
+                bc.account_details = None if cur is None else AccountDetails(currencyCode=cur, discountRate=0)
+                par = currency_parameters[cur or "GBP"]
+                mbs, mbp, mbl = par["min_bet_size"], par["min_bet_payout"], par["min_bsp_liability"]
+                for attr, want in (("min_bet_size", mbs), ("min_bet_payout", mbp), ("min_bsp_liability", mbl)):
+                    out.rule("validation")
+                    if getattr(bc, attr) != want:
+                        out.v("client-minimum-differs-from-currency", {"attr": attr, "first": str(first)}, currency=cur, got=getattr(bc, attr), expected=want)
+                for side in ("BACK", "LAY"):
+                    for size in (mbs - 0.01, mbs, round(mbp / 3.0, 2), 0.5, 2.0, 5.0, 30.0, 100.0):
+                        if size <= 0:
+                            continue
+                        o = Trade("1.1", 1, 0, strategy).create_order(side, LimitOrder(2.0, round(size, 2)))
+                        o.update_client(bc)
+                        refused = _refused(ctrl, o)
+                        out.rule("validation")
+                        n += 1
+                        k = int(round(size * 100))
+                        ok = not (Fraction(k, 100) < Fraction(str(mbs)) and 2 * Fraction(k, 100) < Fraction(str(mbp)))
+                        if refused == ok:
+                            out.v("limit-validation-differs", {"expected_valid": ok, "currency_min": True, "after_switch": cur != first}, currency=cur, first=first, side=side, size=size, refused=refused)
+                    for liab in (mbs - 0.01, mbs, mbl - 0.01, mbl, 2.0, 10.0, 30.0):
+                        if liab <= 0:
+                            continue
+                        o = Trade("1.1", 1, 0, strategy).create_order(side, MarketOnCloseOrder(round(liab, 2)))
+                        o.update_client(bc)
+                        refused = _refused(ctrl, o)
+                        out.rule("validation")
+                        n += 1
+                        ok = round(liab, 2) >= (mbs if side == "BACK" else mbl)
+                        if refused == ok:
+                            out.v("sp-validation-differs", {"expected_valid": ok, "otype": "MOC", "side": side, "after_switch": cur != first}, currency=cur, first=first, liability=liab, refused=refused)
+        out.d("validation:currency_switch")
     elif case["kind"] == "validation_ladders":
         client.min_bet_validation = False
         # every classic tick and every hundredth in between is judged on the classic and finest ladders
